@@ -21,6 +21,22 @@ __CPROVER_ensures(FLOORMUL(value, granularity) >= IT_MIN ==> (mathint)RV == FLOO
 __CPROVER_assigns()
 #include "alignDownStripe.body.inc"
 
+/* instantiation at the cursor type (initStripeState aligns the offset from `start`, which is a Wide) */
+#pragma push_macro("IntegerT")
+#pragma push_macro("IT_MIN")
+#undef IntegerT
+#undef IT_MIN
+#define IntegerT Wide
+#define IT_MIN WIDE_MIN
+Wide alignDownStripe_Wide(Wide value, uint32_t granularity)
+__CPROVER_requires(granularity >= 1 && granularity <= 64)
+__CPROVER_ensures(granularity <= 1 ==> RV == value)
+__CPROVER_ensures(FLOORMUL(value, granularity) >= WIDE_MIN ==> (mathint)RV == FLOORMUL(value, granularity))
+__CPROVER_assigns()
+#include "alignDownStripe.body.inc"
+#pragma pop_macro("IT_MIN")
+#pragma pop_macro("IntegerT")
+
 /* ---- claim rule: the statements of stripeClaim after `prev = s.next.fetch_add(chunkSize)` ----
  * ghost: next0 = the cursor value initStripeState stored; prev = next0 + j*chunkSize for the j-th claim on this stripe
  * (atomic RMW axiom: each j is returned exactly once). */
@@ -64,6 +80,10 @@ StripeInit init_stripes(IntegerT start, IntegerT end, uint32_t numWorkers, uint3
                         bool stripes_retired[NW_MAX], uint32_t k)
 __CPROVER_requires(start < end && numWorkers >= 1 && numWorkers <= NW_MAX && state_granularity >= 1 && state_granularity <= 64 && k < numWorkers)
 __CPROVER_requires((mathint)end - (mathint)start <= I64_MAX)
+#ifdef C13_GRANULAR
+/* parallel_for hands the stripes the trimmed range (computeGranularity): its size is a multiple of the granularity */
+__CPROVER_requires(((mathint)end - (mathint)start) % (mathint)state_granularity == 0)
+#endif
 __CPROVER_ensures(RV.cursor == end)
 /* ghost index k: stripe k is [next_k, end_k) inside [start,end], stripe 0 starts at start, the last ends at end, k+1 starts where k ends */
 __CPROVER_ensures((mathint)start <= (mathint)stripes_next[k] && stripes_next[k] <= stripes_end[k] && (mathint)stripes_end[k] <= (mathint)end)
@@ -78,4 +98,22 @@ __CPROVER_ensures(k + 1 < numWorkers ==> ((mathint)stripes_end[k] - (mathint)sta
 {
 #include "init_stripes.slice.inc"
   return (StripeInit){activeCount, cursor};
+}
+
+/* C13 (stripe path): a stripe that starts and ends at multiples of g from `start`, claimed in chunkSize (multiple of g) steps,
+ * only hands out ranges whose size is a multiple of g -- except possibly the claim that reaches the LAST stripe's end */
+void c13_stripe_granular(Wide s_end, IntegerT chunkSize, Wide next0, Wide j, uint32_t granularity)
+__CPROVER_requires(chunkSize >= 1 && IT_MIN <= next0 && next0 < s_end && s_end <= IT_MAX && j >= 0 && granularity >= 1 && granularity <= 64)
+__CPROVER_requires((mathint)chunkSize <= (mathint)IT_MAX - (mathint)IT_MIN && (mathint)next0 + (mathint)j * (mathint)chunkSize <= (mathint)s_end + FMAX * (mathint)chunkSize)
+__CPROVER_requires(!NEAR_MAX(s_end, chunkSize) && (mathint)j <= 4611686018427387904)
+__CPROVER_requires((mathint)chunkSize % (mathint)granularity == 0 && ((mathint)s_end - (mathint)next0) % (mathint)granularity == 0)
+__CPROVER_assigns()
+{
+  ClaimResult a = stripe_claim_rule((Wide)((mathint)next0 + (mathint)j * (mathint)chunkSize), s_end, chunkSize, next0, j);
+  mathint qc = (mathint)chunkSize / (mathint)granularity;
+  mathint qs = ((mathint)s_end - (mathint)next0) / (mathint)granularity;
+  __CPROVER_assert((mathint)chunkSize == qc * (mathint)granularity && (mathint)s_end - (mathint)next0 == qs * (mathint)granularity, "witnesses of the divisibility hypotheses");
+  /* "multiple of the granularity" with an explicit witness: a full chunk (qc units) or what is left of the stripe (qs - j*qc units) */
+  if (a.ok) __CPROVER_assert((mathint)a.outEnd - (mathint)a.outBegin == qc * (mathint)granularity ||
+                             (mathint)a.outEnd - (mathint)a.outBegin == (qs - (mathint)j * qc) * (mathint)granularity, "claimed range is a multiple of the granularity");
 }
